@@ -101,6 +101,7 @@ class H:
         self.functions = set()
         self.stop_after_first_violation_per_obligation = True
         self._viol_obl = set()
+        self.last_neg = None
 
     def ok(self, name, phi, detail=None, extra=None):
         """obligation: phi must hold on the current path for every input.  Returns True if discharged."""
@@ -129,7 +130,11 @@ class H:
         if name in self._viol_obl and self.stop_after_first_violation_per_obligation and len(self.violations) >= 8:
             return False
         self._viol_obl.add(name)
-        case = self.decode(m)
+        self.last_neg = neg                # available to decode(): the violated obligation's negation on this path
+        try:
+            case = self.decode(m)
+        finally:
+            self.last_neg = None
         self.violations.append({"obligation": name, "case": case, "detail": jsonable(detail, m) if detail is not None else None,
                                 "kind": self.replay_kind, "extra": jsonable(extra, m) if extra is not None else None})
         return False
